@@ -90,7 +90,7 @@ func New(t testing.TB, property, stage string) *M {
 		out:       os.Getenv("VERIF_OUT"),
 		replayDir: envOr("VERIF_REPLAY_DIR", filepath.Join(os.TempDir(), "verif-replays")),
 		maxSample: 6,
-		maxViol:   40,
+		maxViol:   300,
 		sigSeen:   map[string]int{},
 	}
 	m.res = Result{Property: property, Stage: stage, Tier: tier, Seed: seed,
@@ -195,7 +195,7 @@ func (m *M) Violation(signature, detail string, witness any) {
 	m.mu.Lock()
 	defer m.mu.Unlock()
 	m.sigSeen[signature]++
-	if m.sigSeen[signature] > 3 || len(m.res.Violations) >= m.maxViol {
+	if m.sigSeen[signature] > 2 || len(m.res.Violations) >= m.maxViol {
 		// keep counting but do not flood
 		old, _ := m.res.Extra["violations_suppressed"].(int64)
 		m.res.Extra["violations_suppressed"] = old + 1
